@@ -11,6 +11,7 @@ package main
 import (
 	"fmt"
 	"math/big"
+	"regexp"
 	"sort"
 	"strings"
 	"time"
@@ -26,7 +27,7 @@ var modelledFns = map[string]string{
 	"repeat": "FRepeat", "replace": "FReplace", "round": "FRound", "round_up": "FRoundUp", "round_down": "FRoundDown",
 	"mod": "FMod", "mean": "FMean", "max": "FMax", "min": "FMin", "percent": "FPercent", "format_number": "FFormatNumber",
 	"date_from_parts": "FDateFromParts", "time_from_parts": "FTimeFromParts", "datetime_add": "FDateTimeAdd",
-	"array": "FArray", "object": "FObject", "extract_object": "FExtractObject", "foreach": "FForEach", "has_group": "FHasGroup",
+	"array": "FArray", "object": "FObject", "extract_object": "FExtractObject", "foreach": "FForEach", "has_group": "FHasGroup", "regex_match": "FRegexMatch",
 }
 
 // functions whose result is compared on its kind only (the model does not reproduce the value)
@@ -195,7 +196,7 @@ func corrTasks(r *hx.Rand, o *hx.Opts) []*task {
 	}
 	arityOf := map[string][2]int{"word": {2, 3}, "word_slice": {2, 4}, "field": {3, 3}, "text_slice": {2, 4}, "char": {1, 1}, "repeat": {2, 2}, "replace": {3, 4},
 		"round": {1, 2}, "round_up": {1, 2}, "round_down": {1, 2}, "mod": {2, 2}, "mean": {1, 4}, "max": {1, 4}, "min": {1, 4}, "percent": {1, 1}, "format_number": {1, 3},
-		"date_from_parts": {3, 3}, "time_from_parts": {3, 3}, "datetime_add": {3, 3}, "array": {0, 4}, "object": {0, 4}, "extract_object": {2, 4}, "foreach": {2, 4}, "has_group": {2, 3}}
+		"date_from_parts": {3, 3}, "time_from_parts": {3, 3}, "datetime_add": {3, 3}, "array": {0, 4}, "object": {0, 4}, "extract_object": {2, 4}, "foreach": {2, 4}, "has_group": {2, 3}, "regex_match": {2, 3}}
 	pick := func(rr *hx.Rand, fn string, pos int) VSpec {
 		// position-aware: mostly the kind the function wants there, sometimes anything
 		if rr.Chance(1, 6) {
@@ -210,6 +211,10 @@ func corrTasks(r *hx.Rand, o *hx.Opts) []*task {
 			return hx.Pick(rr, texts)
 		case fn == "replace" && pos <= 2, fn == "field" && pos == 2, (fn == "word" && pos == 2), (fn == "word_slice" && pos == 3), fn == "datetime_add" && pos == 2:
 			return hx.Pick(rr, texts)
+		case fn == "regex_match" && pos == 0:
+			return hx.Pick(rr, P("'abc def ghi'", "'foo bar foo'", "'a,b,,c'", "''", "'12.50'"))
+		case fn == "regex_match" && pos == 1:
+			return hx.Pick(rr, P("'(\\w+) (\\w+)'", "'['", "'zzz'", "'DEF'", "''", "'d(e)(f)'", "'(\\d+)\\.(\\d+)'", "'(a)|(b)'", "'^(foo)? ?(bar)'"))
 		case fn == "datetime_add" && pos == 0:
 			return byName["dt:2018"]
 		case fn == "extract_object" && pos == 0:
@@ -282,6 +287,14 @@ func corrEligible(c *Call) bool {
 		}
 		if !isASCII(a) && !(c.Kind == "call" && unicodeOK[c.Fn]) && !(c.Kind == "op") {
 			return false
+		}
+	}
+	if c.Kind == "call" && c.Fn == "regex_match" {
+		// the oracle table is keyed by the texts themselves: text and pattern must be text values
+		for i, a := range c.Args {
+			if i < 2 && a.T != "text" {
+				return false
+			}
 		}
 	}
 	if c.Kind == "call" && c.Fn == "repeat" && len(c.Args) == 2 {
@@ -397,6 +410,8 @@ func coqTarget(c *Call) string {
 			return "(TNeg " + coqValue(c.Args[0]) + ")"
 		}
 		return "(TOp " + corrOps[c.Fn] + " " + coqValue(c.Args[0]) + " " + coqValue(c.Args[1]) + ")"
+	case "expr":
+		return "(TEval ctx0 " + c.Coq + ")"
 	case "lookup":
 		if strings.HasPrefix(c.Fn, "dot:") {
 			return "(TLookup " + coqValue(c.Args[0]) + " (VText " + hx.Str(c.Fn[4:]) + ") true)"
@@ -413,16 +428,25 @@ Import ListNotations.
 Open Scope N_scope.
 `
 
+// the context of the expression cases as a sorted property list
+func corrContextDef() string {
+	return "Definition ctx0 : list (text * value) := match " + coqValue(exprContext()) + " with VObject _ p => p | _ => [] end."
+}
+
 func writeCorrespondence(tasks []*task, o *hx.Opts, res *hx.Result) {
 	var file *hx.CoqFile
 	var names []string
 	nfile := 0
+	var rxRows []string
+	rxSeen := map[string]bool{}
 	flush := func() {
 		if file == nil {
 			return
 		}
+		file.Add("Definition rx : rx_table := [" + strings.Join(rxRows, "; ") + "].")
 		file.Add("Definition cases : list case := [" + strings.Join(names, "; ") + "].")
-		file.Add("Definition M := Eval vm_compute in mismatches cases.")
+		file.Add("Definition M := Eval vm_compute in mismatches rx cases.")
+		rxRows, rxSeen = nil, map[string]bool{}
 		file.Add("Print M.")
 		file.Save(o, res)
 		file, names = nil, nil
@@ -449,15 +473,28 @@ func writeCorrespondence(tasks []*task, o *hx.Opts, res *hx.Result) {
 			}
 			if file == nil {
 				file = hx.NewCoqFile(fmt.Sprintf("cases_C04_%d.v", nfile), corrHeader)
+				file.Add(corrContextDef())
 				nfile++
+			}
+			if cr.call.Kind == "call" && cr.call.Fn == "regex_match" && len(cr.call.Args) >= 2 {
+				// the regexp library's answer for this (pattern, text), computed here with Go's regexp
+				text, pattern := cr.call.Args[0].S, cr.call.Args[1].S
+				if k := pattern + "\x00" + text; !rxSeen[k] {
+					rxSeen[k] = true
+					groups := "None"
+					if exp, err := regexp.Compile("(?mi)" + pattern); err == nil {
+						groups = "(Some " + hx.List(exp.FindStringSubmatch(text), hx.Str) + ")"
+					}
+					rxRows = append(rxRows, "("+hx.Str(pattern)+", "+hx.Str(text)+", "+groups+")")
+				}
 			}
 			idx := len(names)
 			name := fmt.Sprintf("c%d", idx)
 			file.Add(fmt.Sprintf("Definition %s : case := Case %s %s.", name, coqTarget(cr.call), impl))
 			names = append(names, name)
 			res.Cases = append(res.Cases, hx.Case{File: file.Name, Index: idx, Input: cr.call, Impl: map[string]any{"state": out.St, "kind": out.RK, "value": abbreviate(out.RV, 200), "coefficient": out.NC, "exponent": out.NE}})
-			if cr.call.Kind == "lookup" {
-				res.Dist("corr=lookup")
+			if cr.call.Kind == "lookup" || cr.call.Kind == "expr" {
+				res.Dist("corr=" + cr.call.Kind)
 			} else {
 				res.Dist("corr=" + cr.call.Kind + ":" + cr.call.Fn)
 			}
